@@ -1,0 +1,16 @@
+//go:build verif
+
+package client
+
+import "github.com/arm-doe/sts"
+
+// VerifNewRecoverFile builds the sts.Recovered implementation that recover()
+// pushes for resumed files and placeholders, for the verification harness.
+func VerifNewRecoverFile(c sts.Cached, prev string, left []*sts.ByteRange) sts.Recovered {
+	return &recoverFile{Cached: c, prev: prev, left: chunks(left)}
+}
+
+// VerifNewBinnable wraps a chunk the way startBin does before packing it.
+func VerifNewBinnable(s sts.Sendable, tag string, noPrev bool) sts.Binnable {
+	return &binnable{Sendable: s, tag: tag, noPrev: noPrev}
+}
